@@ -139,6 +139,7 @@ def dumpReport (st : LS) (out : IO.FS.Stream) : IO Unit := do
   line "quantityMismatch" r.quantityMismatch
   line "danglingAliases" r.danglingAliases
   line "orphans" r.orphans
+  line "fixedPointSubstBad" r.fixedPointSubstBad
 
 /-- `loadt SCENARIO`: blocks of `tdef` lines between `begin` / `end`; each block is one `Context::load` -/
 def loadtMain (path : String) : IO Unit := do
